@@ -587,6 +587,14 @@ func checkC16(c *Check) {
 	headersOwnBacking(c, "C16.R4", R)
 	transportIsOwn(c, "C16.R4")
 	responseFreshPerCheck(c, "C16.R4", R)
+	// the generator a check draws its identifiers from is built for that check by the audited constructor and
+	// carries no state (C06.R2 wiring, C06.R3 independence): a generator shared by concurrent checks with a
+	// scratch buffer of its own is a data race on the identifiers themselves
+	if c.ID == "C16" {
+		importObls(c, "C06", checkC06, "C16.R4", func(o *Obligation) bool {
+			return strings.HasPrefix(o.Key, "C06.R2/wiring") || strings.HasPrefix(o.Key, "C06.R3/stateless") || strings.HasPrefix(o.Key, "C06.R3/no-state")
+		})
+	}
 	// objects that belong to a dependency's package-level state (http.DefaultTransport, http.DefaultClient) are
 	// shared by the whole process: own code writes their fields only on a Clone()
 	for _, fn := range P.Funcs {
